@@ -103,7 +103,8 @@ func collect(d *dataTreeNavigator, context Context, remainingMatches *list.List)
 			newCandidate := aggCandidate.Copy()
 			log.Debugf("collectObjectOperation; aggCandidate: %v", NodeToString(aggCandidate))
 
-			newCandidate, err = multiply(multiplyPreferences{AppendArrays: false})(d, context, newCandidate, splatCandidate)
+			// the keys of an entry are data: {"ab": 1, "a*": 2} has two entries, a* is not a pattern for ab
+			newCandidate, err = multiply(multiplyPreferences{AppendArrays: false, TraversePrefs: traversePreferences{ExactKeyMatch: true}})(d, context, newCandidate, splatCandidate)
 
 			if err != nil {
 				return Context{}, err
